@@ -342,15 +342,61 @@ Definition cat_json (verbose : nat) (c : cat) (l : list tentry) : option jv :=
   else option_map JObj (all_some_kv (dict_last (map (fun t => (tpath t, entry_json t)) l))).
 
 (* the dict json.dumps receives: to_dict(view_override='text'), empty categories removed *)
-Definition json_of_text (verbose : nat) (ts : list tentry) : option jv :=
-  option_map JObj (all_some_kv (flat_map (fun c =>
+Definition cat_list (verbose : nat) (ts : list tentry) : list (pystr * option jv) :=
+  flat_map (fun c =>
     match in_cat c ts with
     | [] => []
     | l => [(cat_name c, cat_json verbose c l)]
-    end) all_cats)).
+    end) all_cats.
+Definition json_of_text (verbose : nat) (ts : list tentry) : option jv :=
+  option_map JObj (all_some_kv (cat_list verbose ts)).
 
 Definition to_json (rep : bool) (verbose : nat) (tree : list entry) : option jv :=
   match get_view_results rep ViewText verbose tree with
   | RText ts => json_of_text verbose ts
   | RTree _ => None
   end.
+
+(* ------------------------------------------------------------------ *)
+(* repetition_change (report_repetition=True)                          *)
+(* ------------------------------------------------------------------ *)
+(* additional['repetition'] of a repetition_change level is not part of [entry];
+   the ignore-order model returns it beside the entries as
+   (path of the level, old_indexes, new_indexes).  TextResult files
+   {old_repeat, new_repeat, old_indexes, new_indexes, value = t1} under the path. *)
+Definition repinfo3 := (path * list nat * list nat)%type.
+Record trep := mkTRep { trpath : pystr; trold : list nat; trnew : list nat; trval : value }.
+
+Definition rep_lookup (p : path) (rs : list repinfo3) : list nat * list nat :=
+  match find (fun r => path_eqb (fst (fst r)) p) rs with
+  | Some r => (snd (fst r), snd r)
+  | None => ([], [])
+  end.
+Definition rep_view (es : list entry) (rs : list repinfo3) : list trep :=
+  flat_map (fun e =>
+    match ekind e with
+    | KRepetition => [mkTRep (render (ep1 e)) (fst (rep_lookup (ep1 e) rs)) (snd (rep_lookup (ep1 e) rs)) (opt_val (et1 e))]
+    | _ => []
+    end) es.
+
+Definition jnat (n : nat) : jv := JInt (Z.of_nat n).
+Definition rep_entry_json (t : trep) : option jv :=
+  option_map JObj (all_some_kv
+    [(s2p "old_repeat", Some (jnat (List.length (trold t)))); (s2p "new_repeat", Some (jnat (List.length (trnew t))));
+     (s2p "old_indexes", Some (JList (map jnat (trold t)))); (s2p "new_indexes", Some (JList (map jnat (trnew t))));
+     (s2p "value", to_jsonable (trval t))]).
+Definition rep_name : pystr := s2p "repetition_change".
+Definition rep_cat (reps : list trep) : list (pystr * option jv) :=
+  match reps with
+  | [] => []
+  | _ => [(rep_name, option_map JObj (all_some_kv (dict_last (map (fun t => (trpath t, rep_entry_json t)) reps))))]
+  end.
+
+(* the complete text view and its JSON-able value *)
+Definition json_full (verbose : nat) (ts : list tentry) (reps : list trep) : option jv :=
+  option_map JObj (all_some_kv (cat_list verbose ts ++ rep_cat reps)).
+Definition text_full (rep : bool) (verbose : nat) (tree : list entry) (rs : list repinfo3) : list tentry * list trep :=
+  let tree' := if rep then tree else mutual tree in
+  (text_view verbose tree', rep_view tree' rs).
+Definition to_json_full (rep : bool) (verbose : nat) (tree : list entry) (rs : list repinfo3) : option jv :=
+  json_full verbose (fst (text_full rep verbose tree rs)) (snd (text_full rep verbose tree rs)).
